@@ -95,4 +95,14 @@ theorem tie_exec_dispatch :
 theorem tie_node_sources_independent :
     0 < KoordVerif.Generated.C10.nodeSourceErrorHandlers ∧ KoordVerif.Generated.C10.nodeSourceErrorHandlersLeaving = 0 := by decide
 
+/-- the budget's node-reservation term: helpers.GetNodeResourceReserved passes node.Annotations to exactly one helper,
+    util.GetNodeReservationFromAnnotation, and neither it nor GetNodeReservationResources mentions the annotation's ApplyPolicy
+    (model `annoReservedP` ignores the policy; theorems `anno_policy_irrelevant`, `budget_reserves_annotation`;
+    `policy_aware_reservation_counterexample` is the shape this excludes). -/
+theorem tie_reservation_policy_blind :
+    KoordVerif.Generated.C10.nodeReservedAnnoHelper = "util.GetNodeReservationFromAnnotation" ∧
+    KoordVerif.Generated.C10.nodeReservedAnnoHelperCalls = 1 ∧
+    KoordVerif.Generated.C10.annoReservationReadsApplyPolicy = false ∧
+    (∀ p ∈ [0, 1, 2, 3, 4], annoReservedP p 2 100 4 = 4000) := by decide
+
 end KoordVerif.C10
